@@ -125,6 +125,33 @@ class C13Executor(SymListMixin, ET.ETreeMixin, Executor):
             return [(st, VReal(z3.RealVal(f"{fr.numerator}/{fr.denominator}")))]
         return super().construct(st, t, args, kwargs, node)
 
+    # ---- round 7 (xlsx trimming loops): a descending range with symbolic bounds, any()/all() over a symbolic sequence
+    def b_range(self, st, args, kwargs, node):
+        if len(args) == 3 and isinstance(args[2], VInt) and args[2].const() == -1 and all(isinstance(a, VInt) for a in args) \
+                and (args[0].const() is None or args[1].const() is None):
+            lo, hi = ops.int_term(args[0]), ops.int_term(args[1])
+            return [(st, VSeq(z3.If(lo - hi < 0, z3.IntVal(0), lo - hi), lambda i, lo=lo: VInt(lo - i), "int"))]
+        return super().b_range(st, args, kwargs, node)
+
+    def _quant_bools(self, st, v, is_any):
+        s = v if isinstance(v, VSeq) else (self.as_seq(st, v) if isinstance(v, VRef) and st.obj(v.ref).kind == "slist" else None)
+        if s is None or getattr(s, "tag", None) is not None:
+            return None
+        k = z3.Int(fresh_name("qk"))
+        e = s.elem(k)
+        if not isinstance(e, VBool):
+            return None
+        rng = z3.And(k >= 0, k < s.length)
+        return VBool(z3.Exists([k], z3.And(rng, e.t)) if is_any else z3.ForAll([k], z3.Implies(rng, e.t)))
+
+    def b_any(self, st, args, kwargs, node):
+        r = self._quant_bools(st, args[0], True) if len(args) == 1 and self.concrete_items(st, args[0]) is None else None
+        return [(st, r)] if r is not None else super().b_any(st, args, kwargs, node)
+
+    def b_all(self, st, args, kwargs, node):
+        r = self._quant_bools(st, args[0], False) if len(args) == 1 and self.concrete_items(st, args[0]) is None else None
+        return [(st, r)] if r is not None else super().b_all(st, args, kwargs, node)
+
     def to_str(self, st, v, formatted=False):
         if isinstance(v, VExt) and v.sort == "TimeDelta" and not formatted:
             return VStr(PYSTR_TD(v.t))
@@ -695,20 +722,22 @@ def xls_native_ok(c, res, branch):
     return z3.BoolVal(True)       # error cells: no value to keep (reported as None / "#ERROR")
 
 
+def p_xlsx_value():
+    """a cell value as openpyxl hands it out"""
+    def mk(ex, st, name):
+        alts = [(None, NONE), (None, VStr(z3.String(f"{name}_s"))), (None, VInt(z3.Int(f"{name}_i"))), (None, VReal(z3.Real(f"{name}_f"))),
+                (None, VBool(z3.Bool(f"{name}_b")))]
+        for k in ("DateTime", "Date", "Time", "TimeDelta"):
+            alts.append((None, VExt(k, z3.Const(f"{name}_{k}", ext_sort(k)))))
+        return alts
+    return Maker(mk, desc="None | str | int | float | bool | datetime | date | time | timedelta")
+
+
 def value_contracts(reg):
     install_value_models(reg)
     out = []
 
     # ---- xlsx: datetime/date/time -> ISO text, everything else (None, str, int, float, bool, timedelta, error text) unchanged
-    def p_xlsx_value():
-        def mk(ex, st, name):
-            alts = [(None, NONE), (None, VStr(z3.String(f"{name}_s"))), (None, VInt(z3.Int(f"{name}_i"))), (None, VReal(z3.Real(f"{name}_f"))),
-                    (None, VBool(z3.Bool(f"{name}_b")))]
-            for k in ("DateTime", "Date", "Time", "TimeDelta"):
-                alts.append((None, VExt(k, z3.Const(f"{name}_{k}", ext_sort(k)))))
-            return alts
-        return Maker(mk, desc="None | str | int | float | bool | datetime | date | time | timedelta")
-
     def xlsx_post(c):
         v, r = c.args["cell_value"], c.result
         if isinstance(v, VExt) and v.sort in ISO:
@@ -741,6 +770,98 @@ def value_contracts(reg):
                      ("date-cell-is-iso-text-when-xlrd-cannot-convert", lambda c, native=native: xls_native_ok(c, native(c), "failed"))],
             raises=[], inline=True,
             note="number -> int when integral, bool, date -> ISO text (statement); as_string=False for _get_cell_value"))
+    return out
+
+
+# ============================================================ xlsx trimming (round 7) ==
+# `_read_sheet_data` cuts the sheet to its used range with these helpers: the SHAPE of every xlsx table depends on them.
+NONEMPTY = z3.Function("cell_non_empty", PYVAL, B)          # spec predicate on an abstract cell value: not None and not a blank string
+
+
+def nonempty_spec(v):
+    """statement: a cell is empty when it holds no value or only white space; every other value (0, False, dates ...) is data"""
+    if isinstance(v, VExt) and v.sort == "PyVal":
+        return NONEMPTY(v.t)                               # (call-site view on an abstract cell: the predicate the verified contract defines per type)
+    if v is NONE:
+        return z3.BoolVal(False)
+    if isinstance(v, VStr):
+        from contracts import C13_bounded as Bm
+        return Bm.mk_strip(v.t) != z3.StringVal("")
+    return z3.BoolVal(True)
+
+
+def meaningful_spec(v):
+    if v is NONE:
+        return z3.BoolVal(False)
+    if isinstance(v, VStr):
+        from contracts import C13_bounded as Bm
+        return z3.And(Bm.mk_strip(v.t) != z3.StringVal(""), z3.Not(z3.PrefixOf(z3.StringVal("Unnamed: "), v.t)))
+    return z3.BoolVal(True)
+
+
+def row_nonempty(row):
+    if not isinstance(row, VSeq):
+        return z3.BoolVal(False)                           # (only reached for the sheet without rows)
+    j = z3.Int("j!rne")
+    e = row.elem(j)
+    return z3.Exists([j], z3.And(j >= 0, j < row.length, nonempty_spec(e)))
+
+
+def xlsx_trim_contracts(reg):
+    from contracts import C13_bounded as Bm
+    Bm.install_str_models(reg)
+    m = loader.module(XLSX)
+    out = []
+
+    def bool_post(spec, pname):
+        def post(c):
+            r = c.result
+            if not isinstance(r, VBool):
+                c.note = "result is not a bool"
+                return z3.BoolVal(False)
+            return r.t == spec(c.args[pname])
+        return post
+    for fn, spec, label in (("_is_cell_non_empty", nonempty_spec, "non-empty-iff-a-value-that-is-not-blank-text"),
+                            ("_is_meaningful_value", meaningful_spec, "meaningful-iff-a-value-that-is-neither-blank-nor-an-Unnamed-placeholder")):
+        fnode = m.functions.get(fn)
+        if fnode is None or len(fnode.args.args) != 1:
+            continue
+        pname = fnode.args.args[0].arg
+        out.append(FnContract(target=f"{XLSX}::{fn}", params=[(pname, p_xlsx_value())],
+                              ensures=[(label, bool_post(spec, pname))], returns=lambda c, spec=spec, pname=pname: VBool(spec(c.args[pname])),
+                              raises=[], note="VERIFIED on every cell type; at call sites on an abstract cell value (PyVal) the result is the spec predicate "
+                                              "cell_non_empty(v), which this contract defines type by type"))
+
+    # ---- _find_last_data_row: 1-based index of the last row that holds a non-empty cell, 0 when there is none (rows of EVERY length)
+    fq = "_find_last_data_row"
+    fnode = m.functions.get(fq)
+    if fnode is not None and len(fnode.args.args) == 1:
+        pname = fnode.args.args[0].arg
+
+        def rows_of(c):
+            return c.ex.as_seq(c.entry, c.args[pname])
+
+        def post_last(c):
+            t, r = rows_of(c), c.result
+            if t is None or not isinstance(r, VInt):
+                c.note = "result is not an int"
+                return z3.BoolVal(False)
+            k = z3.Int("k!last")
+            res = ops.int_term(r)
+            return z3.And(res >= 0, res <= t.length,
+                          z3.Implies(res > 0, row_nonempty(t.elem(res - 1))),
+                          z3.ForAll([k], z3.Implies(z3.And(k >= res, k < t.length), z3.Not(row_nonempty(t.elem(k))))))
+
+        def inv_tail(lc):
+            t = lc.ex.as_seq(lc.entry, lc.old(pname))
+            if t is None:
+                return z3.BoolVal(False)
+            k = z3.Int("k!tail")
+            return z3.ForAll([k], z3.Implies(z3.And(k >= t.length - lc.i, k < t.length), z3.Not(row_nonempty(t.elem(k)))))
+        out.append(FnContract(target=f"{XLSX}::{fq}", params=[(pname, p_grid())],
+                              ensures=[("last-row-with-a-non-empty-cell-zero-when-none", post_last)], raises=[],
+                              loops={0: LoopSpec(inv=inv_tail, label="rows-from-the-end")},
+                              note="symbolic sheet: every number of rows, every row length; every row after the result is empty, the result's row is not"))
     return out
 
 
@@ -1259,6 +1380,7 @@ def contracts(reg):
     out = []
     out += dim_contracts(reg)
     out += value_contracts(reg)
+    out += _guarded(xlsx_trim_contracts, reg)
     out += pptx_contracts(reg)
     out += _guarded(docx_contracts, reg)
     out += rtf_contracts(reg)
